@@ -93,19 +93,23 @@ CHECKS = {
         "technique": "stateless model checking of the whole real KeyValueStore under loom (DPOR, iterative preemption bounding) with a brute-force linearizability check of every execution's recorded history",
         "design_ref": "DESIGN.md 3.3, 4 (C06)",
         "jobs": {
-            "quick": [{"ws": "loomh", "bin": "loom_kvs", "args": ["--prop", "C06"], "timeout": 1200}],
-            "thorough": [{"ws": "loomh", "bin": "loom_kvs", "args": ["--prop", "C06"], "timeout": 10000}],
+            "quick": [{"ws": "loomh", "bin": "loom_kvs", "args": ["--prop", "C06"], "timeout": 1200},
+                      {"ws": "harness", "bin": "sched_store", "args": ["--prop", "C06"], "timeout": 1200}],
+            "thorough": [{"ws": "loomh", "bin": "loom_kvs", "args": ["--prop", "C06"], "timeout": 10000},
+                         {"ws": "harness", "bin": "sched_store", "args": ["--prop", "C06"], "timeout": 10000}],
         },
         "text": "Nine harnesses on the real store (opened on tmpfs, memtable rollover on every write, skiplist heights 1 and 2): two-key batch vs. full scan; batch vs. two point reads; two writers of one key vs. a reader reading twice; delete and put vs. get+scan; put vs. one flush-loop iteration vs. get+scan; get+scan vs. one compaction-loop iteration on a two-file tree; two writers with read-back vs. a flush iteration. loom explores every interleaving of the lock, condition-variable, wait-list and skiplist operations up to the completed preemption bound; each execution's invocation/response history is checked by brute force against a sequential map (scan = one atomic read) and scans must show all or none of a batch.",
-        "note": "File-system calls are real and not scheduling points; at most 3 client threads, 2 operations each, one background step per execution; the completed preemption bound per harness is in the evidence (p=1..3 in the quick tier, because one execution opens a real store).",
+        "note": "loom_kvs: file-system calls are real and not scheduling points; at most 3-4 threads; the completed preemption bound per harness is in the evidence (p=1..3 in the quick tier, because one execution opens a real store). sched_store complements it with a coarse-grained cooperative scheduler on real threads: switches only at named points of the write and flush paths (operation start, after sequencing, before each memtable entry, before the wait-list hand-off, after the rollover), every schedule with <= 2 preemptions (thorough 3) of five 3-4 thread harnesses with up to 4 operations per thread, each on a fresh store, every failing schedule replayed before it is reported.",
     },
     "C07": {
         "level": "model_checking",
         "technique": "explicit-state bounded model checking (cursors held across every event sequence <= d, compared with the model at open time) plus stateless model checking under loom of a cursor walk racing writer / flush / compaction threads, skiplist allocation registry on",
         "design_ref": "DESIGN.md 4 (C07)",
         "jobs": {
-            "quick": [seq("C07", 4), {"ws": "loomh", "bin": "loom_kvs", "args": ["--prop", "C07"], "timeout": 1200}],
-            "thorough": [seq("C07", 5), seq("C07", 4, "A-min,D-stall12,F-anygc,H-mem64-mand1"), {"ws": "loomh", "bin": "loom_kvs", "args": ["--prop", "C07"], "timeout": 10000}],
+            "quick": [seq("C07", 4), {"ws": "loomh", "bin": "loom_kvs", "args": ["--prop", "C07"], "timeout": 1200},
+                      {"ws": "harness", "bin": "sched_store", "args": ["--prop", "C07"], "timeout": 1200}],
+            "thorough": [seq("C07", 5), seq("C07", 4, "A-min,D-stall12,F-anygc,H-mem64-mand1"), {"ws": "loomh", "bin": "loom_kvs", "args": ["--prop", "C07"], "timeout": 10000},
+                         {"ws": "harness", "bin": "sched_store", "args": ["--prop", "C07"], "timeout": 10000}],
         },
         "text": "The alphabet adds 'open a scan and keep it' (two bound pairs) and cursor movements on kept cursors (next, prev, seek) to writes, flush, compaction, compact-until-idle and verifier passes; every sequence of <= d steps is run; each kept cursor must show exactly what a vector cursor over the model AT OPEN TIME shows, every movement must return Ok, nothing may panic, and no released skiplist node may be dereferenced (allocation registry).",
         "note": "seq_store: events happen between cursor calls; the SST cache is off in row A so that a cached table cannot mask a retired file. loom_kvs C07: the main thread opens a scan over a snapshot that spans an SST and the memtable and walks it forward and backward while other threads put/delete, run a flush-loop iteration and compaction-loop iterations (4 harnesses, preemption bounds 1-3 completed): every walk must equal the state at open, every call must succeed, and the allocation registry must see no released skiplist node dereferenced.",
@@ -239,7 +243,7 @@ CHECKS = {
     },
 }
 
-HOOK_COMMITS = ["78dca42", "83c0526", "7e7e701", "cedc0ca"]
+HOOK_COMMITS = ["78dca42", "83c0526", "7e7e701", "cedc0ca", "1e0b4ae"]
 
 ENGINES = [
     {"name": "damagemc", "path": "harness/damagemc", "serves_properties": ["C09"], "kind_free_text": "exhaustive single (and paired) damage of finished SST / log / manifest files, read programs compared with the pristine observation"},
